@@ -182,6 +182,7 @@ class Facts:
         self.opts = d.get('opts', {})
         self.dir = d.get('_dir')
         self.profile = d.get('_profile', 'dev')
+        self.adts = {a['path']: a for a in d.get('adts', [])}
         self.children = {}
         for b in self.bodies.values():
             if b.parent:
@@ -189,6 +190,40 @@ class Facts:
         self._by_key = {}
         for b in self.bodies.values():
             self._by_key.setdefault(b.key, []).append(b)
+
+    # ---- ADT tables
+    def field_index(self, adt, field, variant=0):
+        a = self.adts.get(adt)
+        if a is None:
+            raise KeyError('adt %s not in facts' % adt)
+        for i, f in enumerate(a['variants'][variant]['fields']):
+            if f['name'] == field:
+                return i
+        raise KeyError('adt %s has no field %s' % (adt, field))
+
+    def variant_index(self, adt, name):
+        a = self.adts.get(adt)
+        if a is None:
+            raise KeyError('adt %s not in facts' % adt)
+        for i, v in enumerate(a['variants']):
+            if v['name'] == name:
+                return i
+        raise KeyError('adt %s has no variant %s' % (adt, name))
+
+    def discr_of(self, adt, vidx):
+        a = self.adts.get(adt)
+        if a is None or vidx >= len(a['variants']):
+            return vidx
+        return int(a['variants'][vidx].get('discr', vidx))
+
+    def variant_of_discr(self, adt, val):
+        a = self.adts.get(adt)
+        if a is None:
+            return None
+        for i, v in enumerate(a['variants']):
+            if int(v.get('discr', i)) == val:
+                return i
+        return None
 
     def fn_bodies(self):
         return [b for b in self.bodies.values() if b.kind in ('Fn', 'AssocFn', 'Closure')]
